@@ -18,6 +18,16 @@ REPO = os.environ.get("VERIF_REPO", "/repo")
 BUILD = os.path.join(VERIF, "build")
 COQ = os.path.join(VERIF, "coq")
 HARNESS = os.path.join(VERIF, "harness")
+OUTDIR = VERIF  # evidence/ and replay/ live here
+ALT = os.path.realpath(REPO) != "/repo"
+if ALT:
+    # Testing against another checkout (a scratch worktree with a candidate change): fully isolated
+    # build dir, private copy of the Coq tree (generated facts differ), private evidence/replay.
+    BUILD = os.path.join(VERIF, "build", "alt-" + hashlib.sha1(os.path.realpath(REPO).encode()).hexdigest()[:8])
+    COQ = os.path.join(BUILD, "coq")
+    OUTDIR = BUILD
+    os.makedirs(BUILD, exist_ok=True)
+    subprocess.run(["rsync", "-a", "--update", os.path.join(VERIF, "coq") + "/", COQ + "/"], check=True)
 sys.path.insert(0, os.path.join(VERIF, "tools"))
 
 GO124 = "/root/go/pkg/mod/golang.org/toolchain@v0.0.1-go1.24.0.linux-amd64/bin/go"
@@ -71,18 +81,30 @@ def run(cmd, cwd=None, env=None, timeout=1800, stdin=None):
 
 # ------------------------------------------------------------------ build steps
 
-def build_go():
-    """(Re)build the harness test binary and the fact generator against /repo's working tree."""
+def build_go(plugin):
+    """(Re)build this property's harness test binary and fact generator against the repo working tree."""
+    pk = plugin.ID.lower()
     with Lock("go"):
-        shutil.copyfile(os.path.join(REPO, "go.sum"), os.path.join(HARNESS, "go.sum"))
+        sumdir = BUILD if ALT else HARNESS
+        shutil.copyfile(os.path.join(REPO, "go.sum"), os.path.join(sumdir, "go.sum"))
         extra = os.path.join(HARNESS, "go.sum.extra")
         if os.path.exists(extra):
-            with open(os.path.join(HARNESS, "go.sum"), "a") as f:
+            with open(os.path.join(sumdir, "go.sum"), "a") as f:
                 f.write(open(extra).read())
-        rc, out, dt = run([go_bin(), "build", "-o", os.path.join(BUILD, "gen"), "./gen"], cwd=HARNESS, env=go_env())
-        if rc != 0:
-            return False, "gen build failed:\n" + out
-        rc, out, dt2 = run([go_bin(), "test", "-c", "-tags", "verif", "-o", os.path.join(BUILD, "harness.test"), "."],
+        modflag = []
+        if ALT:
+            mod = open(os.path.join(HARNESS, "go.mod")).read().replace("=> /repo\n", "=> %s\n" % os.path.realpath(REPO))
+            open(os.path.join(BUILD, "go.mod"), "w").write(mod)
+            modflag = ["-modfile=" + os.path.join(BUILD, "go.mod")]
+        dt = 0
+        if getattr(plugin, "GEN", None):
+            gdir = getattr(plugin, "GEN_DIR", HARNESS)  # a generator may live in its own module
+            gflag = modflag if gdir == HARNESS else []
+            rc, out, dt = run([go_bin(), "build"] + gflag + ["-o", os.path.join(BUILD, "gen_" + pk), getattr(plugin, "GEN_PKG", "./gen/" + pk)],
+                              cwd=gdir, env=go_env())
+            if rc != 0:
+                return False, "gen build failed:\n" + out
+        rc, out, dt2 = run([go_bin(), "test", "-c"] + modflag + ["-tags", "verif", "-o", os.path.join(BUILD, "harness_%s.test" % pk), "./" + pk],
                            cwd=HARNESS, env=go_env(), timeout=2400)
         if rc != 0:
             return False, "harness build failed:\n" + out
@@ -94,7 +116,7 @@ def gen_facts(plugin):
     gen = getattr(plugin, "GEN", None)
     if not gen:
         return True, ""
-    rc, out, _ = run([os.path.join(BUILD, "gen"), gen, REPO], cwd=HARNESS, env=go_env(), timeout=600)
+    rc, out, _ = run([os.path.join(BUILD, "gen_" + plugin.ID.lower()), os.path.realpath(REPO)], cwd=HARNESS, env=go_env(), timeout=600)
     if rc != 0:
         return False, "fact generator failed:\n" + out
     path = os.path.join(COQ, "Gen", plugin.ID + "Facts.v")
@@ -107,8 +129,18 @@ def gen_facts(plugin):
 
 
 def ensure_makefile():
+    """_CoqProject lists every .v file under coq/ (kept sorted); the Makefile is regenerated when it changes."""
     mk = os.path.join(COQ, "Makefile")
     cp = os.path.join(COQ, "_CoqProject")
+    vs = []
+    for root, dirs, files in os.walk(COQ):
+        dirs[:] = sorted(d for d in dirs if not d.startswith(".") and d != "scratch")
+        for fn in sorted(files):
+            if fn.endswith(".v") and not fn.startswith("."):
+                vs.append(os.path.relpath(os.path.join(root, fn), COQ))
+    want = "-Q . Nib\n" + "\n".join(sorted(vs)) + "\n"
+    if not os.path.exists(cp) or open(cp).read() != want:
+        open(cp, "w").write(want)
     if not os.path.exists(mk) or os.path.getmtime(mk) < os.path.getmtime(cp):
         rc, out, _ = run(["coq_makefile", "-f", "_CoqProject", "-o", "Makefile"], cwd=COQ)
         if rc != 0:
@@ -158,7 +190,7 @@ def run_harness(plugin, tier, seed, n=None, replay=None, tag="gen"):
     else:
         env.pop("VERIF_REPLAY", None)
     to = getattr(plugin, "HARNESS_TIMEOUT", {"quick": 600, "thorough": 7200})[tier]
-    cmd = [os.path.join(BUILD, "harness.test"), "-test.run", "^%s$" % plugin.HARNESS_TEST, "-test.count=1",
+    cmd = [os.path.join(BUILD, "harness_%s.test" % plugin.ID.lower()), "-test.run", "^(%s)$" % plugin.HARNESS_TEST, "-test.count=1",
            "-test.timeout", "%ds" % to]
     mem = getattr(plugin, "HARNESS_MEM_KB", 24 * 1024 * 1024)
     sh = "ulimit -v %d; exec %s" % (mem, " ".join("'%s'" % c for c in cmd))
@@ -169,9 +201,11 @@ def run_harness(plugin, tier, seed, n=None, replay=None, tag="gen"):
             line = line.strip()
             if line:
                 try:
-                    recs.append(json.loads(line))
+                    r = json.loads(line)
                 except Exception:
-                    pass
+                    continue
+                r["id"] = len(recs)  # ids are positions in the trace (several drivers may share one trace)
+                recs.append(r)
     ok = rc == 0 and "\nFAIL" not in o and not o.startswith("FAIL") and "PASS" in o
     return ok, recs, o, dt
 
@@ -243,13 +277,13 @@ def match_known(pid, sig, known):
 
 
 def write_replay(plugin, rec, seed, reason, extra=None):
-    os.makedirs(os.path.join(VERIF, "replay"), exist_ok=True)
+    os.makedirs(os.path.join(OUTDIR, "replay"), exist_ok=True)
     body = {"property": plugin.ID, "seed": seed, "reason": reason,
             "inputs": [rec["input"]] if rec else [], "observed": [rec["obs"]] if rec else []}
     if extra:
         body.update(extra)
     h = hashlib.sha1(json.dumps(body, sort_keys=True).encode()).hexdigest()[:10]
-    path = os.path.join(VERIF, "replay", "%s-%s.json" % (plugin.ID, h))
+    path = os.path.join(OUTDIR, "replay", "%s-%s.json" % (plugin.ID, h))
     with open(path, "w") as f:
         json.dump(body, f, indent=1)
     return path
@@ -305,8 +339,8 @@ def main():
     def finish(code):
         ev["wall_s"] = round(time.time() - t0, 1)
         if not args.replay:
-            os.makedirs(os.path.join(VERIF, "evidence"), exist_ok=True)
-            with open(os.path.join(VERIF, "evidence", pid + ".json"), "w") as f:
+            os.makedirs(os.path.join(OUTDIR, "evidence"), exist_ok=True)
+            with open(os.path.join(OUTDIR, "evidence", pid + ".json"), "w") as f:
                 json.dump(ev, f, indent=1)
         sys.exit(code)
 
@@ -320,7 +354,7 @@ def main():
         finish(2)
 
     # 1 build harness + facts
-    ok, msg = build_go()
+    ok, msg = build_go(plugin)
     if not ok:
         infra(msg)
     ok, facts = gen_facts(plugin)
